@@ -98,9 +98,17 @@ def tick_fold(L, repo):
                     for handler in (True, False):
                         links = [Opaque("LINK%d" % i) for i in range(nl)]
                         sent, hcalls = [], []
-                        e = Ev(repo, ci.mod, env={"self.clck_src": src, "self.ind_period": P, "self.clck_links": list(links),
-                                                  "self.clck_handler": Opaque("HANDLER") if handler else None}, self_cls=ci)
+                        e = Ev(repo, ci.mod, env={}, self_cls=ci)
                         e.ignore_calls = ("log.", "logging.")
+                        # the object as its constructor leaves it (whatever bookkeeping attributes it has), started at `src`
+                        try:
+                            c0, i0 = repo.find_method(ci, "__init__")
+                            e.hooks = {"threading.Event": lambda a: Opaque("EVENT"), "Event": lambda a: Opaque("EVENT")}
+                            e.call_func(i0, c0.mod, e._bindargs(i0, ["<self>", list(links), src, P], {}), self_cls=ci, writeback=True)
+                        except (Unknown, Raised, TypeError, KeyError):
+                            e.env.clear()
+                        e.env.update({"self.clck_src": src, "self.ind_period": P, "self.clck_links": list(links),
+                                      "self.clck_handler": Opaque("HANDLER") if handler else None})
                         e.hooks = {"HANDLER": lambda a, hc=hcalls: hc.append(tuple(a)), "self.clck_handler": lambda a, hc=hcalls: hc.append(tuple(a))}
                         for i in range(nl):
                             e.hooks["LINK%d.send" % i] = (lambda a, i=i, sn=sent: sn.append((i, a[0] if a else None)))
